@@ -53,6 +53,7 @@ int fail_mode = 0;            // 0: that write only (EIO); 1: it and every later
                               // 2: half of it goes through, then as 1 (file size limit)
 int fail_iteration = -1;      // iteration in which the error struck (-1: not yet)
 bool kill_after_callback = false; // die when the callback in which the error struck returns
+bool deny_create = false;         // opening a tracked path that does not exist yet fails (no permission to create files in the directory)
 long position = 0;            // tracked calls so far
 int iteration = 0;            // set by the workload's callback wrapper
 bool fds[4096];
@@ -102,6 +103,7 @@ FILE* fopen64(char const* path, char const* mode)
 {
     static auto real = ip::next<FILE* (*)(char const*, char const*)>("fopen64");
     if (ip::tracked_path(path)) { ip::on_call(ip::OPEN, 0); }
+    if (ip::tracked_path(path) && ip::deny_create && ::access(path, F_OK) != 0) { errno = EACCES; return nullptr; }
     FILE* f = real(path, mode);
     if (f && ip::tracked_path(path)) { int const fd = ::fileno(f); if (fd >= 0 && fd < 4096) { ip::fds[fd] = true; } }
     return f;
@@ -111,6 +113,7 @@ FILE* fopen(char const* path, char const* mode)
 {
     static auto real = ip::next<FILE* (*)(char const*, char const*)>("fopen");
     if (ip::tracked_path(path)) { ip::on_call(ip::OPEN, 0); }
+    if (ip::tracked_path(path) && ip::deny_create && ::access(path, F_OK) != 0) { errno = EACCES; return nullptr; }
     FILE* f = real(path, mode);
     if (f && ip::tracked_path(path)) { int const fd = ::fileno(f); if (fd >= 0 && fd < 4096) { ip::fds[fd] = true; } }
     return f;
@@ -120,6 +123,7 @@ static int open_common(char const* name, char const* path, int flags, mode_t mod
 {
     bool const tr = ip::tracked_path(path);
     if (tr) { ip::on_call(ip::OPEN, 0); }
+    if (tr && ip::deny_create && (flags & O_CREAT) && ::access(path, F_OK) != 0) { errno = EACCES; return -1; }
     int fd;
     if (at) { static auto real = ip::next<int (*)(int, char const*, int, ...)>("openat"); fd = real(dirfd, path, flags, mode); }
     else { auto real = ip::next<int (*)(char const*, int, ...)>(name); fd = real(path, flags, mode); }
@@ -357,7 +361,10 @@ void workload(vf::Ctx& c, vf::RunCfg<T> const& cfg, std::vector<std::size_t> con
            << (verbose ? " verbose_and_write_chkpt" : " silent_and_write_chkpt") << " file-name=" << fname << " tracked-calls=" << seq.size() << " final-size=" << ref[n].size();
 
     std::size_t crashes = 0, inside = 0;
+    std::vector<ip::Call> const* cur_seq = &seq; // the sequence of tracked calls the current experiments refer to
+    bool any_earlier = false;                    // accept the complete checkpoint of any iteration from k0 to the current one
     auto check_after = [&](long pos, long pre, char const* kind) {
+        std::vector<ip::Call> const& seq = *cur_seq;
         int const it = seq[pos].iteration; // the iteration whose callback was writing (1-based count of results)
         bool ex = false;
         std::string const got = slurp(file, ex);
@@ -366,7 +373,8 @@ void workload(vf::Ctx& c, vf::RunCfg<T> const& cfg, std::vector<std::size_t> con
         // what was on disk when this callback started: the checkpoint of the previous iteration (written by this run or
         // left behind by the earlier run), or nothing at all
         bool const prev_exists = static_cast<std::size_t>(it - 1) > k0 || k0 > 0;
-        bool const ok = ex ? (got == cur || (prev_exists && got == prev)) : !prev_exists;
+        bool ok = ex ? (got == cur || (prev_exists && got == prev)) : !prev_exists;
+        if (!ok && ex && any_earlier) { for (std::size_t j = k0; j <= static_cast<std::size_t>(it); ++j) { if ((j > 0 || k0 > 0) && got == ref[j]) { ok = true; } } }
         VF_CHECK(c, ok, "C18:incomplete-file", kind << " at tracked call " << pos << " of " << seq.size() << " (" << (seq[pos].kind == ip::WRITE ? "write" : seq[pos].kind == ip::OPEN ? "open" :
             seq[pos].kind == ip::CLOSE ? "close" : seq[pos].kind == ip::RENAME ? "rename" : "other") << ", " << seq[pos].bytes << " bytes" << (pre >= 0 ? ", after " + std::to_string(pre) + " bytes" : std::string())
             << ") during the callback of iteration " << it << ": the file " << (ex ? "holds " + std::to_string(got.size()) + " bytes, neither the previous (" + std::to_string(prev.size())
@@ -449,6 +457,46 @@ void workload(vf::Ctx& c, vf::RunCfg<T> const& cfg, std::vector<std::size_t> con
         std::string const got = slurp(file, ex);
         VF_CHECK(c, ex && got == ref[n] && vf::text_of(out) == ref[n], "C18:short-write", "a short write at tracked call " << pos << " left " << (ex ? "a file that is not the final checkpoint" : "no file"));
         ++c.sub;
+    }
+    // a directory in which no new file can be created (the temporary file cannot be opened) while the checkpoint left by the
+    // earlier run is there and writable: no new checkpoint can be saved, but a kill at any point must still find a complete one
+    if (k0 > 0)
+    {
+        std::vector<ip::Call> seq2;
+        prepare_files();
+        ip::base = dir; ip::recorded = &seq2; ip::position = 0;
+        ip::crash_at = -1; ip::prefix = -1; ip::short_at = -1; ip::fail_at = -1;
+        ip::counting = true; ip::deny_create = true; ip::active = true;
+        (void) run_under_test();
+        ip::active = false; ip::counting = false; ip::deny_create = false;
+        cur_seq = &seq2;
+        any_earlier = true;
+        for (long pos = 0; pos != static_cast<long>(seq2.size()); ++pos)
+        {
+            std::vector<long> prefixes = {-1};
+            if (seq2[pos].kind == ip::WRITE) { long const b = static_cast<long>(seq2[pos].bytes); prefixes = {-1, 0, 1, b / 2, b - 1}; }
+            for (long pre : prefixes)
+            {
+                if (pre >= 0 && pre > static_cast<long>(seq2[pos].bytes)) { continue; }
+                prepare_files();
+                pid_t const pid = ::fork();
+                if (pid == 0)
+                {
+                    ip::position = 0; ip::crash_at = pos; ip::prefix = pre; ip::short_at = -1; ip::fail_at = -1; ip::counting = false; ip::recorded = nullptr;
+                    ip::deny_create = true; ip::active = true;
+                    (void) run_under_test();
+                    ::_exit(42);
+                }
+                int status = 0;
+                ::waitpid(pid, &status, 0);
+                VF_CHECK(c, WIFSIGNALED(status) && WTERMSIG(status) == SIGKILL, "C18:harness", "child for crash point " << pos << " (no new files can be created) did not die at it (status " << status << ")");
+                ++c.sub;
+                check_after(pos, pre, "kill while no new file can be created in the directory,");
+            }
+        }
+        cur_seq = &seq;
+        any_earlier = false;
+        c.label("directory-without-create-permission");
     }
     // write errors (disk full, quota, I/O error): not fatal either. (a) the process is killed right after the callback in
     // which the error struck: the file must be the previous or the new complete checkpoint, as after any other kill;
